@@ -55,12 +55,24 @@ var atoms = []atom{
 		[]doc{{Path: "ann.yaml", Name: "x", Phase: "p2", CP: "IfNoController", CondMap: 1}}},
 	{"Z", map[string]string{"sub.yaml": pkgw.WidgetYAML("Gadget", "z", "p3", "1", nil)}, []doc{{Path: "sub.yaml", Name: "z", Phase: "p3"}}},
 	bigAtom(),
+	longLineAtom(),
 	// a helper defined in an ordinary template file (no leading underscore) and used from a file
 	// that sorts before it
 	{"D", map[string]string{
 		"d1.yaml.gotmpl": `{{define "dn"}}dn-{{.config.x}}{{end}}` + pkgw.WidgetYAML("Widget", "d1", "p1", "1", nil),
 		"d0.yaml.gotmpl": pkgw.WidgetYAML("Widget", `{{include "dn" .}}`, "p3", "1", nil)},
 		[]doc{{Path: "d0.yaml", Name: "dn-%x", Phase: "p3"}, {Path: "d1.yaml", Name: "d1", Phase: "p1"}}},
+}
+
+// longLineAtom: a multi-document file whose second document carries a single line of 70 KiB
+// (a minified dashboard, a one-line CA bundle), followed by one more document.
+func longLineAtom() atom {
+	long := strings.Repeat("x", 70*1024)
+	mk := func(name, payload string) string {
+		return strings.Replace(pkgw.WidgetYAML("Widget", name, "p2", "1", nil), "spec:\n", "data:\n  payload: \""+payload+"\"\nspec:\n", 1)
+	}
+	return atom{ID: "K", Files: map[string]string{"long.yaml": mk("k1", "short") + "---\n" + mk("k2", long) + "---\n" + mk("k3", "short")},
+		Docs: []doc{{Path: "long.yaml", Index: 0, Name: "k1", Phase: "p2"}, {Path: "long.yaml", Index: 1, Name: "k2", Phase: "p2"}, {Path: "long.yaml", Index: 2, Name: "k3", Phase: "p2"}}}
 }
 
 // bigAtom: five files with three documents each (15 objects, above the small-slice thresholds
@@ -238,7 +250,7 @@ func packages(quick bool) []Pkg {
 		}
 	}
 	rec(0, "")
-	subsets = append(subsets, "B", "BM", "BATX", "D", "DH", "DAM", "DTC")
+	subsets = append(subsets, "B", "BM", "BATX", "D", "DH", "DAM", "DTC", "K", "KA")
 	if !quick {
 		subsets = append(subsets, ids, "AMTHCL", "MNXZCL", "ATHRNXZ", "B"+ids)
 	}
@@ -262,7 +274,7 @@ func runOrders(o checks.Opts) *report.Report {
 	rep.Bounds["deviating_range_sites"] = bound
 	pk := packages(o.Quick())
 	rep.Bounds["packages"] = len(pk)
-	rep.Rule = "packages = every subset (<= 4 of 10) of file atoms {static doc, multi-doc with empty document, .gotmpl using .config, _helpers define + include, file under a conditional path, object with CEL condition annotation, non-YAML file, nested directory, object with collision-protection/condition-map annotations, sibling path}, plus packages with a 5-file x 3-document block (15 objects in one phase) and packages in which a helper template is defined in an ordinary .gotmpl file and used from a file that sorts before it, x 2 manifest phase orders x 2 configs; each rendered by the real load/validate/render pipeline under the canonical order and under every permutation (n<=4: all n!, else 4 representative orders) of the keys at <= `deviating_range_sites` executed `range`-over-map statements of packagerender, celctx and packagestructure (every map range found by type-checking the current source is routed through vorder by the build overlay); distinct = (outcome class, template hash)"
+	rep.Rule = "packages = every subset (<= 4 of 10) of file atoms {static doc, multi-doc with empty document, .gotmpl using .config, _helpers define + include, file under a conditional path, object with CEL condition annotation, non-YAML file, nested directory, object with collision-protection/condition-map annotations, sibling path}, plus packages with a 5-file x 3-document block (15 objects in one phase) packages with a 70 KiB single-line value in the middle document of a file, and packages in which a helper template is defined in an ordinary .gotmpl file and used from a file that sorts before it, x 2 manifest phase orders x 2 configs; each rendered by the real load/validate/render pipeline under the canonical order and under every permutation (n<=4: all n!, else 4 representative orders) of the keys at <= `deviating_range_sites` executed `range`-over-map statements of packagerender, celctx and packagestructure (every map range found by type-checking the current source is routed through vorder by the build overlay); distinct = (outcome class, template hash)"
 	for i, p := range pk {
 		if o.Shards > 1 && i%o.Shards != o.Shard {
 			continue
